@@ -1,0 +1,23 @@
+//go:build verif
+// +build verif
+
+package gocql
+
+import "context"
+
+// verifCancelInBuild is an OPTIONS request whose frame building ends the caller's context: the context
+// is live at exec's entry check and done by the time writeContext is reached.
+type verifCancelInBuild struct {
+	cancel context.CancelFunc
+}
+
+func (w *verifCancelInBuild) buildFrame(framer *framer, streamID int) error {
+	w.cancel()
+	return framer.writeOptionsFrame(streamID, &writeOptionsFrame{})
+}
+
+// VerifC06ExecCancelInBuild runs c.exec with such a request and returns exec's error.
+func VerifC06ExecCancelInBuild(c *Conn, ctx context.Context, cancel context.CancelFunc) error {
+	_, err := c.exec(ctx, &verifCancelInBuild{cancel: cancel}, nil)
+	return err
+}
